@@ -481,6 +481,13 @@ func tail(s string, n int) string {
 	return s
 }
 
+// Emergency ends the run at once with what r holds (evidence, VIOLATION lines,
+// replay files) and exits.  For a check that has seen the code under test run
+// away (a call that allocates without end) and cannot wait for its workers.
+func Emergency(c *Ctx, r *Result) {
+	os.Exit(finish(c, registry[c.Prop], r, false))
+}
+
 func finish(c *Ctx, p *Prop, r *Result, emit bool) int {
 	// classify violations against the known-findings file
 	kf := loadKnown()
